@@ -80,6 +80,10 @@ class HistogramBinned(ArrayExpr):
     def _name(self):
         return f"histogram-{self.deterministic_token}"
 
+    def _requires_grid_preservation(self, dependency):
+        # ``_layer`` pairs the blocks of several inputs by position
+        return True
+
     def _layer(self) -> dict:
         from dask._task_spec import List as TaskList
 
@@ -392,6 +396,10 @@ class HistogramDDBinned(ArrayExpr):
     @cached_property
     def _name(self):
         return f"histogramdd-{self.deterministic_token}"
+
+    def _requires_grid_preservation(self, dependency):
+        # ``_layer`` pairs the blocks of several inputs by position
+        return True
 
     def _layer(self) -> dict:
         dsk = {}
